@@ -1,5 +1,6 @@
-From LV Require Import Base.Buf Split.SplitModel.
+From LV Require Import Base.Buf Split.SplitModel Split.TokObjModel.
 Require Extraction.
 Require Import ExtrOcamlBasic.
 Extraction "c12_model.ml" num_anchor split tok_eval join get_word get_pword num_words
-  tokens words pword_spec join_spec trim take_str.
+  tokens words pword_spec join_spec trim take_str
+  tok_new tok_run spec_run default_cfg.
